@@ -153,7 +153,10 @@ def _run_unit(arg):
         # whose single case is a whole schedule exploration verify replay
         # determinism inside the engine instead and set DETERMINISM_REPLAY=False).
         todo = [x for x in (first, last) if x is not None] + replay
-        if not getattr(mod, "DETERMINISM_REPLAY", True):
+        dr = getattr(mod, "DETERMINISM_REPLAY", True)
+        if callable(dr):
+            todo = [x for x in todo if dr(x[0])]
+        elif not dr:
             todo = []
         for case, d in todo:
             res2 = mod.run_case(case)
